@@ -275,6 +275,25 @@ class Driver:
             self.rejected += 1
         return r
 
+    def drop_track(self, name, mpk, existing, ppk, apk):
+        """edit a multi-period stream: the same Periods, one adaptation set (primary key apk, of Period ppk) left out"""
+        before = self.state()
+        plist = [{'pid': p['pid'], 'pk': p['pk'], 'ordering': i + 1, 'stream': p['stream'], 'start': 'PT0S', 'duration': 'PT8S',
+                  'tracks': [t for t in p['tracks'] if not (p['pk'] == ppk and t['pk'] == apk)]}
+                 for i, p in enumerate(existing)]
+        body = {'name': name, 'title': 'mps ' + name, 'options': None, 'pk': mpk, 'csrf_token': self._mps_tok(), 'periods': plist}
+        r = self.c.post('/api/multi-period-streams/%s' % name, json=body, headers=self.actor.headers())
+        after = self.state()
+        self.log.append('POST /api/multi-period-streams/%s drop adaptation set %s of period %s -> %d' % (name, apk, ppk, r.status_code))
+        js = r.get_json(silent=True) or {}
+        if r.status_code == 200 and js.get('success'):
+            self.ops.append([13, apk, 0, 0, 0])
+            self.cascades += 1
+        else:
+            self.rejected += 1
+        self._absorb_mps(before, after)
+        return r
+
     def _absorb_mps(self, before, after):
         for x in after[5]:
             if x not in before[5]:
@@ -321,7 +340,7 @@ def history(ctx, env, hidx, length):
         with env.app.app_context():
             playable = [x.pk for x in env.models.Stream.all() if x.timing_reference is not None]
         choice = script.pop(0) if script else rng.choice(['add_mps', 'add_period', 'delete_stream', 'rename', 'rename', 'delete_key', 'add_stream', 'add_stream', 'upload', 'upload', 'upload', 'index', 'timing', 'delete_stream', 'delete_media',
-                             'add_key', 'delete_key', 'add_mps', 'add_period', 'delete_mps'])
+                             'add_key', 'delete_key', 'add_mps', 'add_period', 'delete_mps', 'drop_track', 'add_period', 'drop_track'])
         n_before = len(d.ops)
         try:
             if choice == 'add_stream':
@@ -386,6 +405,19 @@ def history(ctx, env, hidx, length):
                 with env.app.app_context():
                     name = env.models.MultiPeriodStream.get(pk=x[0]).name
                 r = d.delete_mps(name, x[0])
+            elif choice == 'drop_track' and mpss:
+                x = rng.choice(mpss)
+                with env.app.app_context():
+                    mps = env.models.MultiPeriodStream.get(pk=x[0])
+                    name = mps.name
+                    existing = [{'pid': p.pid, 'pk': p.pk, 'stream': p.stream_pk,
+                                 'tracks': [{'track_id': a.track_id, 'role': a.role.name.lower(), 'encrypted': a.encrypted, 'lang': a.lang, 'pk': a.pk, 'enabled': True}
+                                            for a in p.adaptation_sets]} for p in mps.periods]
+                cands = [(p['pk'], t['pk']) for p in existing for t in p['tracks']]
+                if not cands:
+                    continue
+                ppk, apk = rng.choice(cands)
+                r = d.drop_track(name, x[0], existing, ppk, apk)
             else:
                 continue
         except Exception as e:  # noqa   (the test client re-raises nothing; this is a harness error)
